@@ -3,3 +3,5 @@ import Lean
 register_simp_attr pres
 /-- Frame lemmas `Pres Frame (f args)` (inline layer: only the message log and the placeholder queue change). -/
 register_simp_attr frame
+/-- Exception lemmas `Safe E (f args)`. -/
+register_simp_attr safe
